@@ -5,6 +5,8 @@ CONSTANTS
   Cost <- CostDef
   Variant = "perthread"
   UseCache = TRUE
+  Nest = FALSE
+  StoreFirst = FALSE
   MaxHist = TRUE
 INVARIANT EmitSchedule
 CHECK_DEADLOCK FALSE
